@@ -70,7 +70,8 @@ STEP = [None]   # set per obligation (extended slices)
 
 
 LIST_OPS = ("append", "insert", "extend", "setitem", "setslice", "iadd", "add", "mul", "imul", "copy",
-            "pop", "remove", "delitem", "sort", "reverse", "clear", "queries", "init", "setitem_indexobj")
+            "pop", "remove", "delitem", "sort", "reverse", "clear", "queries", "init", "setitem_indexobj",
+            "insert_indexobj")
 
 
 class _Idx:
@@ -110,7 +111,11 @@ def _list_step(op: str, use_str: bool, n0: int, a, b, c, x, y, idx: int, j: int,
         r = _both(_set_proxy, _set_ref)
     elif op == "setitem_indexobj":
         # j selects the kind of index: an __index__ object, or something list itself refuses (str, None, float)
-        index = _Idx(idx) if j == 0 else ("0" if j == 1 else (None if j == 2 else 0.0))
+        ci = 0
+        for cand in range(-4, 5):
+            if idx == cand:
+                ci = cand
+        index = _Idx(ci) if j == 0 else ("0" if j == 1 else (None if j == 2 else 0.0))
 
         def _set_ref():
             ref[index] = norm_item(x)
@@ -118,6 +123,13 @@ def _list_step(op: str, use_str: bool, n0: int, a, b, c, x, y, idx: int, j: int,
         def _set_proxy():
             proxy[index] = x
         r = _both(_set_proxy, _set_ref)
+    elif op == "insert_indexobj":
+        ci = 0
+        for cand in range(-4, 5):     # a CONCRETE int inside the index object (the engine's model of comparing a
+            if idx == cand:           # foreign object with a symbolic int differs from CPython's)
+                ci = cand
+        index = _Idx(ci) if j == 0 else ("0" if j == 1 else (None if j == 2 else 0.0))
+        r = _both(lambda: proxy.insert(index, x), lambda: ref.insert(index, norm_item(x)))
     elif op == "setslice":
         it = _iterable(kind, extra, schema, cfg)
 
@@ -283,9 +295,10 @@ def _s(i):
 
 def _prune(op, idx, j, kind):
     """arguments an operation does not use are pinned (avoids exploring the same behaviour repeatedly)"""
-    uses_idx = op in ("insert", "setitem", "setslice", "pop", "delitem", "queries", "sort", "setitem_indexobj")
-    uses_j = op in ("setslice", "mul", "imul", "queries", "setitem_indexobj")
-    if op == "setitem_indexobj" and not 0 <= j <= 3:
+    uses_idx = op in ("insert", "setitem", "setslice", "pop", "delitem", "queries", "sort", "setitem_indexobj",
+                      "insert_indexobj")
+    uses_j = op in ("setslice", "mul", "imul", "queries", "setitem_indexobj", "insert_indexobj")
+    if op in ("setitem_indexobj", "insert_indexobj") and not 0 <= j <= 3:
         skip("index kind")
     uses_kind = op in ("extend", "setslice", "iadd", "add", "init")
     if not uses_idx and idx != 0:
